@@ -63,5 +63,5 @@ NoDupKeys(j) == CASE j.t = "obj" -> /\ Cardinality({kv[1] : kv \in j.m}) = Cardi
 EncTotal == LET s == Build(fv) IN NoDupKeys(Enc(s, SymMsg(s, TopMsg(s), 3)))
 \* the round-trip projection of an encoded value is the value itself where nothing lossy is annotated
 \* with no annotation honoured anywhere the mapping is plain proto3 JSON, which never unwraps or flattens
-PlainTotal == LET s == Build(fv) IN NoDupKeys(EncMsgVal(s, SymMsg(s, TopMsg(s), 3), FALSE, [nh |-> FALSE, nn |-> FALSE]))
+PlainTotal == LET s == Build(fv) IN NoDupKeys(EncMsgVal(s, SymMsg(s, TopMsg(s), 3), FALSE, [nh |-> FALSE, fh |-> FALSE, nn |-> FALSE]))
 =============================================================================
